@@ -55,6 +55,9 @@ class Lines:
         return True
 
     def skip_residue(self, where):
+        if self.i >= len(self.lines):
+            self.residue.append({"line": len(self.raw), "text": "<end of file>", "where": where})
+            return
         no, s = self.lines[self.i]
         self.residue.append({"line": no, "text": s, "where": where})
         self.i += 1
